@@ -217,6 +217,9 @@ def part_store(ctx, cfg):
         return cur - new
     empties = []
 
+    def reduce_to_u2(acc, path, node):
+        return u2          # the reduction yields u2 whatever the tree holds
+
     def user_empty(cur, new):
         empties.append(new)
         return cur + 1
@@ -233,7 +236,9 @@ def part_store(ctx, cfg):
         # dictionary-valued leaves: the empty dict is a value like any other
         'setd': {'_default': {'b': v}, '_updater': 'set'},
         'usrd': {'_default': v, '_updater': user_empty},
-        'multid': {'_default': {'b': v}, '_updater': 'set'}}
+        'multid': {'_default': {'b': v}, '_updater': 'set'},
+        # updates carrying a reduction over the tree and their own updater
+        'red': {'_default': v}, 'red_null': {'_default': v}}
     st = Store(nest(leaves, pre))
     st.apply_defaults()
     node = st.get_path(pre)
@@ -244,7 +249,12 @@ def part_store(ctx, cfg):
            'multi': {'_multi_update': [u, u2]},
            'multiset': {'_multi_update': [u, u2]},
            'setd': {}, 'usrd': {},
-           'multid': {'_multi_update': [{'k': u}, {}]}}
+           'multid': {'_multi_update': [{'k': u}, {}]},
+           'red': {'_reduce': {'from': ('..',), 'reducer': reduce_to_u2,
+                               'initial': 0}, '_updater': 'set'},
+           'red_null': {'_reduce': {'from': ('..',),
+                                    'reducer': reduce_to_u2, 'initial': 0},
+                        '_updater': 'null'}}
     full = nest(upd, pre)
     full0 = copy.deepcopy(full)
     st.apply_update(full)
@@ -256,6 +266,7 @@ def part_store(ctx, cfg):
           EQ(g['multiset'], u2),
           g['setd'] == {}, EQ(g['usrd'], v + 1), empties == [{}],
           g['multid'] == {},
+          EQ(g['red'], u2), EQ(g['red_null'], v),
           {k: id(n) for k, n in node.inner.items()} == ids,
           _same_tree(_strip(full), _strip(full0))]
     for k in ('acc', 'nn', 'usr', 'multi', 'multiset'):
